@@ -390,6 +390,12 @@ def replay(payload):
     texts = inp['texts']
     r, out, _ = pipeline.compile_set(texts, genTexts=True)
     bad = []
+    for mod, exp in (inp.get('expect_enum') or {}).items():
+        doc = json.loads(out[mod]) if mod in out else {}
+        for sym, want in exp.items():
+            got = (((doc.get(sym) or {}).get('type') or {}).get('constraints') or {}).get('enumeration')
+            if got != want:
+                bad.append('%s::%s enumeration %r, expected %r' % (mod, sym, got, want))
     for mod, exp in (inp.get('expect_default') or {}).items():
         doc = json.loads(out[mod]) if mod in out else {}
         for sym, want in exp.items():
